@@ -26,6 +26,36 @@ def strip_docstrings(tree):
     return tree
 
 
+class _Canon(ast.NodeTransformer):
+    """Spelling-independent form of two statement shapes (positions are kept):
+       x = x + e   (plain name)           ->  x += e
+       if not c: A else: B  (two arms)    ->  if c: B else: A      (elif chains are left alone)"""
+
+    def visit_Assign(self, node):
+        self.generic_visit(node)
+        if len(node.targets) == 1 and isinstance(node.targets[0], ast.Name) and isinstance(node.value, ast.BinOp) \
+                and isinstance(node.value.left, ast.Name) and node.value.left.id == node.targets[0].id \
+                and isinstance(node.value.op, (ast.Add, ast.Sub, ast.Mult, ast.Div)):
+            return ast.copy_location(ast.AugAssign(target=ast.Name(id=node.targets[0].id, ctx=ast.Store()), op=node.value.op, value=node.value.right), node)
+        return node
+
+    def visit_If(self, node):
+        self.generic_visit(node)
+        chain_member = getattr(node, "_in_chain", False) or (len(node.orelse) == 1 and isinstance(node.orelse[0], ast.If))
+        if node.orelse and not chain_member and isinstance(node.test, ast.UnaryOp) and isinstance(node.test.op, ast.Not):
+            return ast.copy_location(ast.If(test=node.test.operand, body=node.orelse, orelse=node.body), node)
+        return node
+
+
+def canonicalise(tree):
+    for n in ast.walk(tree):
+        if isinstance(n, ast.If) and len(n.orelse) == 1 and isinstance(n.orelse[0], ast.If):
+            n.orelse[0]._in_chain = True
+    tree = _Canon().visit(tree)
+    ast.fix_missing_locations(tree)
+    return tree
+
+
 def set_parents(tree):
     for n in ast.walk(tree):
         for c in ast.iter_child_nodes(n):
@@ -88,7 +118,7 @@ class ModuleInfo:
         self.rel = rel                      # e.g. PEPit/function.py
         self.path = path
         self.src = src
-        self.tree = set_parents(strip_docstrings(ast.parse(src, filename=path)))
+        self.tree = set_parents(canonicalise(strip_docstrings(ast.parse(src, filename=path))))
         self.modname = rel[:-3].replace("/", ".")
         if self.modname.endswith(".__init__"):
             self.modname = self.modname[: -len(".__init__")]
